@@ -107,6 +107,16 @@ class Contract(Unit):
 
     # ---- generic machinery
     def bind(self, fn, args, kwargs):
+        from .interp import IFunc
+        if isinstance(fn, IFunc):
+            a = fn.node.args
+            names = [p.arg for p in a.posonlyargs + a.args]
+            defaults = [d.value if hasattr(d, "value") else None for d in a.defaults]
+            out = dict(zip(names, args))
+            for n, d in zip(names[len(names) - len(defaults):], defaults):
+                out.setdefault(n, d)
+            out.update(kwargs)
+            return out
         sig = inspect.signature(fn)
         ba = sig.bind(*args, **kwargs)
         ba.apply_defaults()
